@@ -39,6 +39,9 @@ CONSTANTS PeerRules,    \* peers that can be blocked (the rule is named like the
           AddrRules,    \* single-address rules
           SubnetRules,  \* subnet rules
           Match,        \* [AddrRules \cup SubnetRules -> SUBSET IP names]
+          Canon,        \* [Rules -> rule name]: how loadRules lists a rule written under this name.  Identity but
+                        \* for a subnet given with host bits set ("127.0.0.3/31"): the datastore key and the map
+                        \* key keep the caller's spelling, net.ParseCIDR in loadRules yields the masked network
           Endpoints,    \* set of <<peer, ip>>: the remotes a connection can be attempted with ({} = none)
           Dirs,         \* subset of {"out", "in"}
           Tpts,         \* transports, e.g. {"tcp", "quic"} (same consultations; kept for the binding)
@@ -50,14 +53,15 @@ Rules == PeerRules \cup IPRules
 
 VARIABLES mem,    \* SUBSET Rules: rule set of the running process
           disk,   \* SUBSET Rules: persisted rule set
+          loaded, \* SUBSET mem: entries created by loadRules whose listed value differs from their key
           up,     \* BOOLEAN: a process (gater object) exists
           call,   \* the Block*/Unblock* call in progress
           att,    \* the connection attempt in progress
-          must,   \* ghost [Rules -> {"in","out","free"}]: what the returned calls oblige
+          must,   \* ghost [Rules -> {"in","out","never","free"}]: what the returned calls oblige
           op      \* output only: last action with its expected observable results
 
-vars == <<mem, disk, up, call, att, must, op>>
-View == <<mem, disk, up, call, att, must>>
+vars == <<mem, disk, loaded, up, call, att, must, op>>
+View == <<mem, disk, loaded, up, call, att, must>>
 
 NoCall == [kind |-> "none", r |-> "-", pc |-> "-", prev |-> "-"]
 NoAtt == [dir |-> "-", peer |-> "-", ip |-> "-", tpt |-> "-", k |-> 0, cont |-> {}]
@@ -77,9 +81,13 @@ Gate(stage, dir, p, ip, M) ==
 
 Matching(p, ip) == {r \in Rules : r = p \/ (r \in IPRules /\ ip \in Match[r])}
 
-Init == /\ mem = {} /\ disk = {} /\ up = TRUE
+(* what ListBlocked* returns: the caller's value for entries made by a call, the parsed (masked) one for   *)
+(* entries made by loadRules                                                                             *)
+Shown == {IF r \in loaded THEN Canon[r] ELSE r : r \in mem}
+
+Init == /\ mem = {} /\ disk = {} /\ loaded = {} /\ up = TRUE
         /\ call = NoCall /\ att = NoAtt
-        /\ must = [r \in Rules |-> "out"]
+        /\ must = [r \in Rules |-> "never"]     \* "out" is reserved for: an Unblock returned success
         /\ op = [name |-> "init"]
 
 ----------------------------------------------------------------------------
@@ -91,14 +99,14 @@ Begin(kind, r) ==
   /\ call' = [kind |-> kind, r |-> r, pc |-> "atwrite", prev |-> must[r]]
   /\ must' = [must EXCEPT ![r] = "free"]      \* while the call runs either answer is acceptable
   /\ op' = [name |-> "begin", kind |-> kind, r |-> r]
-  /\ UNCHANGED <<mem, disk, up, att>>
+  /\ UNCHANGED <<mem, disk, loaded, up, att>>
 
 WriteOk ==
   /\ up /\ call.pc = "atwrite"
   /\ disk' = IF call.kind = "block" THEN disk \cup {call.r} ELSE disk \ {call.r}
   /\ call' = [call EXCEPT !.pc = "written"]
   /\ op' = [name |-> "write", outcome |-> "ok", kind |-> call.kind, r |-> call.r]
-  /\ UNCHANGED <<mem, up, att, must>>
+  /\ UNCHANGED <<mem, loaded, up, att, must>>
 
 WriteFail ==
   /\ "fail" \in Faults
@@ -106,11 +114,12 @@ WriteFail ==
   /\ call' = NoCall
   /\ must' = [must EXCEPT ![call.r] = call.prev]   \* a call that returned an error obliges nothing new
   /\ op' = [name |-> "write", outcome |-> "fail", kind |-> call.kind, r |-> call.r, ret |-> "error"]
-  /\ UNCHANGED <<mem, disk, up, att>>
+  /\ UNCHANGED <<mem, disk, loaded, up, att>>
 
 Finish ==
   /\ up /\ call.pc = "written"
   /\ mem' = IF call.kind = "block" THEN mem \cup {call.r} ELSE mem \ {call.r}
+  /\ loaded' = loaded \ {call.r}             \* a block overwrites the map entry with the caller's value
   /\ call' = NoCall
   /\ must' = [must EXCEPT ![call.r] = IF call.kind = "block" THEN "in" ELSE "out"]
   /\ op' = [name |-> "finish", kind |-> call.kind, r |-> call.r, ret |-> "ok"]
@@ -120,13 +129,14 @@ Crash ==
   /\ "crash" \in Faults
   /\ up
   /\ Exclusive => att = NoAtt
-  /\ up' = FALSE /\ mem' = {} /\ call' = NoCall /\ att' = NoAtt
+  /\ up' = FALSE /\ mem' = {} /\ loaded' = {} /\ call' = NoCall /\ att' = NoAtt
   /\ op' = [name |-> "crash", at |-> IF call = NoCall THEN "idle" ELSE call.pc]
   /\ UNCHANGED <<disk, must>>                 \* an interrupted call leaves its rule "free"
 
 Reopen ==
   /\ ~up
   /\ up' = TRUE /\ mem' = disk                \* loadRules
+  /\ loaded' = {r \in disk : Canon[r] # r}
   /\ op' = [name |-> "reopen"]
   /\ UNCHANGED <<disk, call, att, must>>
 
@@ -138,7 +148,7 @@ AttStart(dir, p, ip, t) ==
   /\ Exclusive => call = NoCall
   /\ att' = [dir |-> dir, peer |-> p, ip |-> ip, tpt |-> t, k |-> 1, cont |-> Matching(p, ip)]
   /\ op' = [name |-> "att_start", dir |-> dir, peer |-> p, ip |-> ip, tpt |-> t]
-  /\ UNCHANGED <<mem, disk, up, call, must>>
+  /\ UNCHANGED <<mem, disk, loaded, up, call, must>>
 
 (* One stage.  cont = the matching rules that were in mem at EVERY consultation so far.        *)
 AttStep ==
@@ -160,7 +170,7 @@ AttStep ==
                      /\ op' = base @@ [allow |-> TRUE, end |-> "admitted", cont |-> c]
                 ELSE /\ att' = [att EXCEPT !.k = @ + 1, !.cont = c]
                      /\ op' = base @@ [allow |-> TRUE, end |-> "-", cont |-> c]
-  /\ UNCHANGED <<mem, disk, up, call, must>>
+  /\ UNCHANGED <<mem, disk, loaded, up, call, must>>
 
 Next == \/ \E kind \in {"block", "unblock"}, r \in Rules : Begin(kind, r)
         \/ WriteOk \/ WriteFail \/ Finish \/ Crash \/ Reopen
@@ -175,16 +185,22 @@ Spec == Init /\ [][Next]_vars
 TypeOK == /\ mem \subseteq Rules /\ disk \subseteq Rules /\ up \in BOOLEAN
           /\ call.kind \in {"none", "block", "unblock"} /\ call.pc \in {"-", "atwrite", "written"}
           /\ att.k \in 0..5 /\ att.cont \subseteq Rules
-          /\ \A r \in Rules : must[r] \in {"in", "out", "free"}
+          /\ \A r \in Rules : must[r] \in {"in", "out", "never", "free"}
           /\ ~up => (call = NoCall /\ att = NoAtt /\ mem = {})
+          /\ loaded \subseteq mem
 
 (* Durable, in its "wherever the process stopped" form: what the successfully returned calls oblige *)
 (* is on disk at EVERY moment (so it is what any later Reopen loads) ...                            *)
 DurableDisk == \A r \in Rules : /\ must[r] = "in" => r \in disk
                                 /\ must[r] = "out" => r \notin disk
 (* ... and is the rule set of every running process, in particular of every reopened one           *)
+(* (a rule whose Unblock returned success is neither in force nor listed any more)                  *)
 Durable == up => \A r \in Rules : /\ must[r] = "in" => r \in mem
-                                  /\ must[r] = "out" => r \notin mem
+                                  /\ must[r] = "out" => (r \notin mem /\ r \notin Shown)
+
+(* nothing that was never blocked with success (or is being blocked) is in force: outside the       *)
+(* statement, kept as a design invariant                                                            *)
+NoSpurious == \A r \in Rules : must[r] = "never" => (r \notin disk /\ r \notin mem)
 
 (* outside a call the process and the datastore agree *)
 MemDiskAgree == (up /\ call = NoCall) => mem = disk
